@@ -221,10 +221,13 @@ pub fn load_fixtures() -> Vec<String> {
 }
 
 fn gen_validate(ch: &mut Ch) -> Validate {
-    match ch.below(4) {
+    match ch.below(6) {
         0 => Validate::All,
         1 => Validate::Default,
         2 => Validate::Bits(ch.raw()),
+        // boundary sets: no capability at all, exactly one capability
+        4 => Validate::Bits(0),
+        5 => Validate::Bits(1 << ch.below(32)),
         _ => {
             // all capabilities minus a few
             let mut bits = naga::valid::Capabilities::all().bits();
@@ -477,7 +480,7 @@ pub fn decode_fuzz_input(data: &[u8]) -> Option<Case> {
         0 => Validate::All,
         1 => Validate::Default,
         2 => Validate::Bits(u32::from_le_bytes([data[0], data.get(1).copied().unwrap_or(0), data.get(2).copied().unwrap_or(0), data.get(3).copied().unwrap_or(0)])),
-        _ => Validate::All,
+        _ => Validate::Bits(0),
     };
     Some(Case { text: text.to_string(), validate, label: "fuzz" })
 }
@@ -531,7 +534,7 @@ fn fuzz_campaigns(run: &mut Run, stats: &mut Stats, fixtures: &[String]) {
         let out = std::process::Command::new("cargo")
             .current_dir(format!("{VERIF_DIR}/harness"))
             .env("CARGO_NET_OFFLINE", "true")
-            .args(["+nightly", "fuzz", "run", "c17"])
+            .args(["+nightly", "fuzz", "run", "-s", "none", "c17"])
             .arg(dir)
             .arg("--")
             .arg(format!("-runs={runs}"))
